@@ -580,3 +580,9 @@ T('C14', 'twin-export-helper-filter', PGP, UIDSIGS, "            for s in self._
   more=[(PGP, "    def __bytearray__(self):\n        _bytes = bytearray()\n        # us\n", "    @staticmethod\n    def _exportable_only(sigs):\n        return [s for s in sigs if s.exportable]\n\n    def __bytearray__(self):\n        _bytes = bytearray()\n        # us\n")])
 M('C14', 'copy-chained-without-subkeys', PGP, "        for uid in self._uids:\n            key |= copy.copy(uid)\n\n        for id, subkey in self._children.items():\n            key |= copy.copy(subkey)\n",
   "        for part in itertools.chain(self._uids):\n            key |= copy.copy(part)\n", 'C14.4')
+T('C14', 'twin-copy-subkeys-by-keyid', PGP, "        for id, subkey in self._children.items():\n            key |= copy.copy(subkey)\n", "        for keyid in self._children:\n            key |= copy.copy(self._children[keyid])\n")
+M('C14', 'copy-subkey-ids-instead-of-subkeys', PGP, "        for id, subkey in self._children.items():\n            key |= copy.copy(subkey)\n", "        for subkey in self._children:\n            key |= copy.copy(subkey)\n", 'C14.4')
+T('C14', 'twin-export-subkeys-by-keyid', PGP, "        for sk in self._children.values():\n            _bytes += sk.__bytearray__()\n\n        return _bytes",
+  "        for keyid in self._children:\n            _bytes += self._children[keyid].__bytearray__()\n\n        return _bytes")
+M('C14', 'export-first-subkey-only', PGP, "        for sk in self._children.values():\n            _bytes += sk.__bytearray__()\n\n        return _bytes",
+  "        for sk in list(self._children.values())[:1]:\n            _bytes += sk.__bytearray__()\n\n        return _bytes", 'C14.1')
